@@ -1,0 +1,52 @@
+//! Verification hooks (compiled only with `--cfg rust_dsymbols_verif`).
+//!
+//! `choose` turns an order-dependent pick (iteration over a `HashSet`) into an
+//! explicit choice point that an external explorer can schedule; `record_network`
+//! keeps the flow networks handed to the cut routines.
+
+use std::cell::RefCell;
+
+thread_local! {
+    static SCHEDULE: RefCell<Vec<usize>> = RefCell::new(vec![]);
+    static TRACE: RefCell<Vec<(usize, usize)>> = RefCell::new(vec![]);
+    static NETWORKS: RefCell<Option<Vec<(Vec<(usize, usize)>, usize, usize)>>> =
+        RefCell::new(None);
+}
+
+/// Installs the choices to take at the next choice points (in order) and
+/// clears the trace. Points beyond the schedule take choice 0.
+pub fn set_schedule(choices: Vec<usize>) {
+    SCHEDULE.with(|s| *s.borrow_mut() = choices);
+    TRACE.with(|t| t.borrow_mut().clear());
+}
+
+/// Returns (number of alternatives, choice taken) for every point passed.
+pub fn take_trace() -> Vec<(usize, usize)> {
+    TRACE.with(|t| std::mem::take(&mut *t.borrow_mut()))
+}
+
+/// A choice point with `n` alternatives; returns the index to take.
+pub fn choose(n: usize) -> usize {
+    let k = TRACE.with(|t| t.borrow().len());
+    let c = SCHEDULE.with(|s| s.borrow().get(k).cloned().unwrap_or(0));
+    assert!(c < n, "verif schedule diverged: choice {} of {} at point {}", c, n, k);
+    TRACE.with(|t| t.borrow_mut().push((n, c)));
+    c
+}
+
+/// Starts (Some) or stops (None) recording of cut networks.
+pub fn set_network_recording(on: bool) {
+    NETWORKS.with(|r| *r.borrow_mut() = if on { Some(vec![]) } else { None });
+}
+
+pub fn record_network(edges: &[(usize, usize)], source: usize, sink: usize) {
+    NETWORKS.with(|r| {
+        if let Some(v) = r.borrow_mut().as_mut() {
+            v.push((edges.to_vec(), source, sink));
+        }
+    });
+}
+
+pub fn take_networks() -> Vec<(Vec<(usize, usize)>, usize, usize)> {
+    NETWORKS.with(|r| r.borrow_mut().as_mut().map(std::mem::take).unwrap_or_default())
+}
